@@ -16,8 +16,10 @@ def main(which):
             if old not in s: res.append((pid, name, "EDIT-NOT-APPLICABLE")); continue
             open(p, "w").write(s.replace(old, new, 1))
             t = time.time()
+            # a private copy of the Lean project: the check regenerates the translated models from the edited sources
+            subprocess.run(["rsync", "-a", f"{ROOT}/lean/", f"{scratch}/lean/"], check=True)
             r = subprocess.run([f"{ROOT}/check", pid, "--tier", "quick"], capture_output=True, text=True, timeout=1800, cwd=ROOT,
-                               env=dict(os.environ, LKV_REPO_SRC=f"{scratch}/src", LKV_OUT=f"{scratch}/out", VERIF_SEED=os.environ.get("VERIF_SEED", "3")))
+                               env=dict(os.environ, LKV_REPO_SRC=f"{scratch}/src", LKV_OUT=f"{scratch}/out", LKV_LEAN=f"{scratch}/lean", VERIF_SEED=os.environ.get("VERIF_SEED", "3")))
             viol = [l for l in r.stdout.splitlines() if l.startswith("VIOLATION")]
             res.append((pid, name, f"exit={r.returncode} violations={len(viol)} {('SILENT' if (r.returncode == 0 and not viol) else 'FALSE-ALARM' if r.returncode == 1 else 'ERROR') if harmless else ('DETECTED' if (r.returncode == 1 and viol) else 'MISSED' if r.returncode == 0 else 'ERROR')} {time.time()-t:.0f}s"
                         + ("" if r.returncode != 2 else " :: " + r.stderr.strip().splitlines()[-1][:120])))
